@@ -67,9 +67,18 @@ class TlvHead(packet.Packet):
         formats.UInt16PayloadLenField('length', default=None),
     ]
 
+    def extract_padding(self, s):
+        ''' The item data is bounded by the length field,
+        anything following belongs to the next item. '''
+        return (s[:self.length], s[self.length:])
+
     def post_dissection(self, pkt):
         ''' Verify consistency of packet. '''
-        formats.verify_sized_item(self.length, self.payload)
+        # data of following items is still attached as padding here
+        pad = self.getlayer(packet.Padding)
+        pad_len = len(pad.load) if pad is not None else 0
+        item_data = bytes(self.payload)
+        formats.verify_sized_item(self.length, item_data[:len(item_data) - pad_len])
         packet.Packet.post_dissection(self, pkt)
 
 
